@@ -96,6 +96,9 @@ func (x *Exec) evalMulti(e ast.Expr, st *State) (Val, *State) {
 	if st == nil {
 		return nil, nil
 	}
+	saved := x.c.curPC
+	x.c.curPC = st.pc
+	defer func() { x.c.curPC = saved }()
 	// constants
 	if tv, ok := x.info.Types[e]; ok && tv.Value != nil {
 		return x.constVal(tv.Value, tv.Type), st
@@ -585,11 +588,11 @@ func (x *Exec) strConcat(l, r Val, st *State) Val {
 	c := x.c
 	a, b := l.(Sc).T, r.(Sc).T
 	n := c.fresh("cat", SStr)
-	c.assume(tTrue, tEq(app("slen", n), tAdd(app("slen", a), app("slen", b))))
-	c.assume(tTrue, tForall([][2]string{{"i!c", SInt}},
+	c.assumeDef( tEq(app("slen", n), tAdd(app("slen", a), app("slen", b))))
+	c.assumeDef( tForall([][2]string{{"i!c", SInt}},
 		tEq(app("sat", n, "i!c"), tIte(tLt("i!c", app("slen", a)), app("sat", a, "i!c"), app("sat", b, tSub("i!c", app("slen", a))))),
 		app("sat", n, "i!c")))
-	c.assume(tTrue, tEq(app("str!cat", a, b), n))
+	c.assumeDef( tEq(app("str!cat", a, b), n))
 	c.used["str!cat"] = true
 	return Sc{n, SStr}
 }
@@ -607,6 +610,14 @@ func (x *Exec) convertTo(v Val, from, to types.Type, st *State) Val {
 		k, _ := classify(to)
 		if k == kReal && sc.S != SReal {
 			return Sc{toReal(sc), SReal}
+		}
+	}
+	if kt, _ := classify(to); kt == kAny && from != nil {
+		if kf, _ := classify(from); kf != kAny {
+			// boxing into an interface value: an opaque non-nil token
+			b := x.c.fresh("boxed", SInt)
+			x.c.assumeHere( tGt(b, "0"))
+			return scInt(b)
 		}
 	}
 	return v
@@ -789,11 +800,11 @@ func (x *Exec) substr(s, lo, hi string) string {
 		return s
 	}
 	n := c.fresh("sub", SStr)
-	c.assume(tTrue, tEq(app("slen", n), tSub(hi, lo)))
-	c.assume(tTrue, tForall([][2]string{{"i!s", SInt}},
+	c.assumeHere( tEq(app("slen", n), tSub(hi, lo)))
+	c.assumeHere( tForall([][2]string{{"i!s", SInt}},
 		tImp(tAnd(tLe("0", "i!s"), tLt("i!s", tSub(hi, lo))), tEq(app("sat", n, "i!s"), app("sat", s, tAdd(lo, "i!s")))),
 		app("sat", n, "i!s")))
-	c.assume(tTrue, tEq(app("str!sub", s, lo, hi), n))
+	c.assumeHere( tEq(app("str!sub", s, lo, hi), n))
 	c.used["str!sub"] = true
 	return n
 }
@@ -1056,7 +1067,7 @@ func (x *Exec) allocRef(tname string, cl *ast.CompositeLit, st *State) (Val, *St
 		top = a.(Sc).T
 	} else {
 		top = c.fresh("alloc0", SInt)
-		c.assume(tTrue, tGe(top, "0"))
+		c.assumeHere( tGe(top, "0"))
 		if x.entry != nil {
 			x.entry.ghost["alloc"] = scInt(top)
 		}
@@ -1122,7 +1133,7 @@ func (x *Exec) globalVal(o *types.Var, st *State) Val {
 				}
 				env := &SpecEnv{x: x, st: &State{vars: map[types.Object]Val{o: v}, heap: map[string]Val{}, ghost: map[string]Val{}, pc: tTrue},
 					names: map[string]Val{o.Name(): v}}
-				c.assume(tTrue, env.evalBool(inv.E))
+				c.assumeHere( env.evalBool(inv.E))
 			}
 			if len(gi.invs) > 0 {
 				c.notes = append(c.notes, "global "+key+" assumed under its invariant (established by "+gi.establishedBy+")")
